@@ -2,6 +2,7 @@ CONSTANTS
   MaxN = 4
   Stratum = "paths"
   PathsMaxN = 4
+  DeferMaxN = 4
 SPECIFICATION GenSpec
 CONSTRAINT GenConstraint
 CHECK_DEADLOCK FALSE
